@@ -43,6 +43,7 @@ UNIT_HARNESS = {
     'wpcr': ('io_harness.rs', 'wpcr'),
     'il2p': ('io_harness.rs', 'il2p'),
     'stream': ('io_harness.rs', 'stream'),
+    'totext': ('io_harness.rs', 'totext'),
     'au': ('io_harness.rs', 'audec'),
     'sigmf': ('io_harness.rs', 'sigmf'),
     'io': ('io_harness.rs', 'il2p,s2pdu,wpcr'),
